@@ -23,7 +23,7 @@
    code: mint_mint_race is the computed schedule (known finding, c03-sched).
 *)
 From Coq Require Import ZArith List Bool.
-From Verif Require Import Model Sem InvDb InvSwap InvMint InvMelt Corollaries Queries Footprint HRel Global GlobalQuote GlobalValue GlobalErr GlobalQuery GlobalMelt GlobalKeys Cuts CutOrder Conc Races GlobalBalance GlobalLedger Reconf.
+From Verif Require Import Model Sem InvDb InvSwap InvMint InvMelt Corollaries Queries Footprint HRel Global GlobalQuote GlobalValue GlobalErr GlobalQuery GlobalMelt GlobalKeys Cuts CutOrder Conc Races GlobalBalance GlobalLedger Reconf GlobalPoll Trace Admin AdminProofs CutValue CutMint CutFrames ConcValue CutHistory CutBalance.
 Import ListNotations.
 Open Scope Z_scope.
 
@@ -37,6 +37,11 @@ Theorem C03_quote_issued_at_most_once_per_payment : forall (cfg : config) (h : l
         (mq_state m = 0 -> cnt (mq_id m) iss <= cnt (mq_id m) cred).
 Proof. exact @quote_issued_at_most_once_per_payment. Qed.
 Print Assumptions C03_quote_issued_at_most_once_per_payment.
+
+Theorem C03_mint_cut_states : forall (mem_ks : list ksrow) (active id : Z) (outs : list bmsg) (sig : Z) (n : nat) (f : oracle) (w : world),
+       mint_cut_state id outs w (fst (run_n n (mint_tokens mem_ks active id outs sig) f w)).
+Proof. exact @mint_cut_states. Qed.
+Print Assumptions C03_mint_cut_states.
 
 Theorem C03_internal_credits_are_melts : forall (cfg : config) (h : list op),
        ln_ok cfg world0 h ->
